@@ -103,6 +103,34 @@ Proof.
     rewrite E. auto.
 Qed.
 
+Lemma nodupb_spec l : nodupb l = true <-> NoDup l.
+Proof.
+  induction l as [|x r IH]; cbn [nodupb]; [split; [constructor|reflexivity]|].
+  rewrite andb_true_iff, negb_true_iff, IH, mem_false. split.
+  - intros [H1 H2]. now constructor.
+  - intros H. inversion H; subst. tauto.
+Qed.
+
+Lemma list_eqb_spec a b : list_eqb a b = true <-> a = b.
+Proof.
+  revert b. induction a as [|x r IH]; intros [|y q]; cbn [list_eqb].
+  - split; reflexivity.
+  - split; discriminate.
+  - split; discriminate.
+  - rewrite andb_true_iff, N.eqb_eq, IH. split; [intros [-> ->]; reflexivity|intros [= -> ->]; tauto].
+Qed.
+
+Lemma subset_spec a b : subset a b = true <-> (forall x, In x a -> In x b).
+Proof. unfold subset. rewrite forallb_forall. split; intros H x Hx; [apply mem_In|apply mem_In]; auto. Qed.
+
+(* the set comparison used for "the replicas reported are those specified" *)
+Lemma same_set_spec a b : same_set a b = true <-> NoDup a /\ NoDup b /\ (forall x, In x a <-> In x b).
+Proof.
+  unfold same_set. rewrite !andb_true_iff, !nodupb_spec, !subset_spec. split.
+  - intros [[[H1 H2] H3] H4]. repeat split; auto.
+  - intros (H1 & H2 & H3). repeat split; try assumption; intros x; apply H3.
+Qed.
+
 Section Topo.
   Variables (dcf rackf : N -> option N).
   Notation in_dc := (in_dc dcf).
@@ -928,6 +956,170 @@ Section Topo.
     Qed.
   End Ordered.
 
+  (* ============================================================= interleaved next() / nth(n) *)
+  Lemma nth_error_skipn_add {A} (l : list A) i n : nth_error (skipn i l) n = nth_error l (i + n).
+  Proof. revert i. induction l as [|x r IH]; intros [|i]; cbn; try reflexivity; [now destruct n|apply IH]. Qed.
+
+  Lemma skipn_cons_S {A} (l : list A) i x r : skipn i l = x :: r -> skipn (S i) l = r.
+  Proof.
+    revert i. induction l as [|y q IH]; intros [|i] H; cbn in *; try discriminate.
+    - now injection H as _ <-.
+    - now apply IH.
+  Qed.
+
+  Lemma skipn_skipn {A} (l : list A) a b : skipn a (skipn b l) = skipn (a + b) l.
+  Proof.
+    revert l. induction b as [|b IH]; intros l; [now rewrite Nat.add_0_r|].
+    destruct l as [|x r]; [now rewrite !skipn_nil|]. rewrite Nat.add_succ_r. cbn [skipn]. apply IH.
+  Qed.
+
+  Lemma hd_error_nth {A} (l : list A) i : hd_error (skipn i l) = nth_error l i.
+  Proof. rewrite <- (Nat.add_0_r i) at 2. rewrite <- nth_error_skipn_add. now destruct (skipn i l). Qed.
+
+  Lemma tl_skipn {A} (l : list A) i : tl (skipn i l) = skipn (S i) l.
+  Proof.
+    destruct (skipn i l) as [|x r] eqn:E; cbn [tl].
+    - symmetry. apply skipn_all2. assert (List.length (skipn i l) = 0%nat) by now rewrite E.
+      rewrite skipn_length in H. lia.
+    - symmetry. eapply skipn_cons_S; eassumption.
+  Qed.
+
+  Section IterOps.
+    Variables (g : ring N) (pre : list strategy) (t : Z).
+    Let F (m : list (N * nat)) (d : N) := get_nts g pre t d (rf_or0 m d).
+    Local Notation it_next := (it_next dcf rackf g pre t).
+    Local Notation it_nth := (it_nth dcf rackf g pre t).
+    Local Notation chain_next := (chain_next dcf rackf g pre t).
+    Local Notation chain_nth := (chain_nth dcf rackf g pre t).
+    Local Notation next_times := (next_times dcf rackf g pre t).
+
+    (* what the iterator still has to yield *)
+    Definition alpha (st : istate) : list N :=
+      match st with
+      | IPlain l idx => skipn idx l
+      | IFiltered l d idx => filter (in_dc d) (skipn idx l)
+      | IChained m cur ridx rest => skipn ridx cur ++ flat_map (F m) rest
+      end.
+
+    Lemma filt_next_spec d l : forall suffix idx o idx', skipn idx l = suffix ->
+      filt_next dcf d suffix idx = (o, idx') ->
+      o = hd_error (filter (in_dc d) suffix) /\ filter (in_dc d) (skipn idx' l) = tl (filter (in_dc d) suffix).
+    Proof.
+      induction suffix as [|x r IH]; intros idx o idx' Hs H; cbn [filt_next filter] in *.
+      - injection H as <- <-. rewrite Hs. split; reflexivity.
+      - pose proof (skipn_cons_S l idx x r Hs) as Hs'. destruct (in_dc d x) eqn:E.
+        + injection H as <- <-. rewrite Hs'. split; reflexivity.
+        + now apply (IH (S idx)).
+    Qed.
+
+    Lemma chain_next_spec m : forall rest cur ridx o st',
+      chain_next m cur ridx rest = (o, st') ->
+      o = hd_error (skipn ridx cur ++ flat_map (F m) rest) /\
+      alpha st' = tl (skipn ridx cur ++ flat_map (F m) rest).
+    Proof.
+      induction rest as [|d r IH]; intros cur ridx o st' H; cbn [Replicas.chain_next flat_map] in H |- *.
+      - rewrite app_nil_r. rewrite <- hd_error_nth in H. destruct (skipn ridx cur) as [|x q] eqn:E; cbn [hd_error] in H.
+        + injection H as <- <-. cbn [alpha flat_map]. rewrite E. split; reflexivity.
+        + injection H as <- <-. cbn [alpha flat_map tl]. rewrite app_nil_r. split; [reflexivity|].
+          eapply skipn_cons_S; eassumption.
+      - rewrite <- hd_error_nth in H. destruct (skipn ridx cur) as [|x q] eqn:E; cbn [hd_error] in H.
+        + cbn [app]. fold (F m d) in H. destruct (IH (F m d) 0%nat o st' H) as [H1 H2]. cbn [skipn] in H1, H2. tauto.
+        + injection H as <- <-. cbn [alpha app hd_error tl flat_map]. split; [reflexivity|].
+          now rewrite (skipn_cons_S cur ridx x q E).
+    Qed.
+
+    Lemma next_spec st o st' : it_next st = (o, st') ->
+      o = hd_error (alpha st) /\ alpha st' = tl (alpha st).
+    Proof.
+      destruct st as [l idx|l d idx|m cur ridx rest]; cbn [Replicas.it_next alpha].
+      - rewrite <- hd_error_nth. destruct (skipn idx l) as [|x q] eqn:E; cbn [hd_error]; intros H; injection H as <- <-; cbn [alpha tl].
+        + rewrite E. split; reflexivity.
+        + split; [reflexivity|]. eapply skipn_cons_S; eassumption.
+      - destruct (filt_next dcf d (skipn idx l) idx) as [o1 idx1] eqn:E. intros H. injection H as <- <-.
+        cbn [alpha]. now apply (filt_next_spec d l (skipn idx l) idx).
+      - apply chain_next_spec.
+    Qed.
+
+    Lemma next_times_spec n : forall st o st', next_times n st = (o, st') ->
+      o = nth_error (alpha st) n /\ alpha st' = skipn (S n) (alpha st).
+    Proof.
+      induction n as [|n IH]; intros st o st' H; cbn [Replicas.next_times] in H.
+      - apply next_spec in H. destruct H as [-> ->]. split; [now destruct (alpha st)|now destruct (alpha st)].
+      - destruct (it_next st) as [o1 st1] eqn:E. apply next_spec in E. destruct E as [-> E2].
+        destruct (alpha st) as [|x q] eqn:Ea; cbn [hd_error] in H.
+        + injection H as <- <-. rewrite E2. split; reflexivity.
+        + cbn [tl] in E2. apply IH in H. rewrite E2 in H. exact H.
+    Qed.
+
+    Lemma chain_nth_spec m : forall rest cur ridx remaining o st',
+      chain_nth m cur ridx rest remaining = (o, st') ->
+      o = nth_error (skipn ridx cur ++ flat_map (F m) rest) remaining /\
+      alpha st' = skipn (S remaining) (skipn ridx cur ++ flat_map (F m) rest).
+    Proof.
+      induction rest as [|d r IH]; intros cur ridx remaining o st' H; cbn [Replicas.chain_nth] in H;
+        pose proof (skipn_length ridx cur) as Hlen;
+        destruct (remaining <? List.length cur - ridx)%nat eqn:E.
+      - apply Nat.ltb_lt in E. apply chain_next_spec in H. destruct H as [-> ->].
+        rewrite !skipn_app, nth_error_app1 by lia. rewrite !skipn_skipn, nth_error_skipn_add.
+        replace (S remaining - List.length (skipn ridx cur))%nat with 0%nat by lia.
+        replace (remaining + ridx)%nat with (ridx + remaining)%nat by lia.
+        replace (S remaining + ridx)%nat with (S (ridx + remaining)) by lia. rewrite skipn_O.
+        destruct (skipn (ridx + remaining) cur) as [|x q] eqn:Es.
+        { exfalso. assert (List.length (skipn (ridx + remaining) cur) = 0%nat) by now rewrite Es.
+          rewrite skipn_length in H. lia. }
+        rewrite <- hd_error_nth, Es. cbn [app hd_error tl]. split; [reflexivity|].
+        now rewrite (skipn_cons_S cur _ x q Es).
+      - apply Nat.ltb_ge in E. injection H as <- <-. cbn [alpha flat_map]. rewrite !app_nil_r.
+        split; [symmetry; apply nth_error_None; lia|].
+        rewrite skipn_all, skipn_all2 by (rewrite skipn_length; lia). reflexivity.
+      - apply Nat.ltb_lt in E. apply chain_next_spec in H. destruct H as [-> ->].
+        rewrite !skipn_app, nth_error_app1 by lia. rewrite !skipn_skipn, nth_error_skipn_add.
+        replace (S remaining - List.length (skipn ridx cur))%nat with 0%nat by lia.
+        replace (remaining + ridx)%nat with (ridx + remaining)%nat by lia.
+        replace (S remaining + ridx)%nat with (S (ridx + remaining)) by lia. rewrite skipn_O.
+        destruct (skipn (ridx + remaining) cur) as [|x q] eqn:Es.
+        { exfalso. assert (List.length (skipn (ridx + remaining) cur) = 0%nat) by now rewrite Es.
+          rewrite skipn_length in H. lia. }
+        rewrite <- hd_error_nth, Es. cbn [app hd_error tl]. split; [reflexivity|].
+        now rewrite (skipn_cons_S cur _ x q Es).
+      - apply Nat.ltb_ge in E. fold (F m d) in H. apply IH in H. rewrite !skipn_O in H. destruct H as [-> ->].
+        cbn [flat_map]. rewrite (nth_error_app2 (skipn ridx cur)) by lia. rewrite (skipn_app (S remaining) (skipn ridx cur)).
+        rewrite (skipn_all2 (skipn ridx cur)) by lia. cbn [app]. rewrite Hlen.
+        replace (S remaining - (List.length cur - ridx))%nat with (S (remaining - (List.length cur - ridx))) by lia.
+        split; reflexivity.
+    Qed.
+
+    Lemma nth_spec n st o st' : it_nth n st = (o, st') ->
+      o = nth_error (alpha st) n /\ alpha st' = skipn (S n) (alpha st).
+    Proof.
+      destruct st as [l idx|l d idx|m cur ridx rest]; cbn [Replicas.it_nth].
+      - destruct (List.length l <=? idx + n)%nat eqn:E.
+        + apply Nat.leb_le in E. intros H. injection H as <- <-. cbn [alpha].
+          rewrite nth_error_skipn_add, skipn_skipn. split; [symmetry; apply nth_error_None; lia|].
+          rewrite skipn_all, skipn_all2 by lia. reflexivity.
+        + intros H. apply next_spec in H. cbn [alpha] in *. destruct H as [-> ->].
+          rewrite hd_error_nth, tl_skipn, nth_error_skipn_add, skipn_skipn.
+          replace (S n + idx)%nat with (S (idx + n)) by lia. split; reflexivity.
+      - apply next_times_spec.
+      - apply chain_nth_spec.
+    Qed.
+
+    Lemma it_run_spec ops : forall st, it_run dcf rackf g pre t ops st = list_run ops (alpha st).
+    Proof.
+      induction ops as [|op r IH]; intros st; [reflexivity|]. cbn [Replicas.it_run list_run]. destruct op as [|k].
+      - destruct (it_next st) as [o st'] eqn:E. apply next_spec in E. destruct E as [-> E]. now rewrite IH, E.
+      - destruct (it_nth k st) as [o st'] eqn:E. apply nth_spec in E. destruct E as [-> E]. now rewrite IH, E.
+    Qed.
+
+    Theorem iter_ops_view s ops :
+      rs_run dcf rackf g pre t s ops = list_run ops (rs_iter dcf rackf g pre t s).
+    Proof.
+      unfold rs_run. rewrite it_run_spec. f_equal.
+      destruct s as [l|l d|m]; cbn [it_init alpha rs_iter]; try reflexivity.
+      destruct (ring_dcs g) as [|d rest]; reflexivity.
+    Qed.
+  End IterOps.
+
   (* ============================================================= model = specification *)
   Lemma replicas_spec_nts g pre t m dc : sorted_weak g ->
     rs_iter dcf rackf g pre t (replicas_for dcf rackf g pre t (NTS m) dc) =
@@ -951,6 +1143,25 @@ Section Topo.
         now rewrite precomputed_simple, simple_spec by assumption.
     - destruct dc as [d|]; cbn [replicas_for rs_iter spec_replicas];
         now rewrite precomputed_simple, simple_spec by assumption.
+  Qed.
+
+  (* the driver's property predicates hold of the model *)
+  Lemma placement_model g pre t s dc : sorted_weak g ->
+    placement_ok (spec_replicas dcf rackf g t s dc)
+                 (rs_iter dcf rackf g pre t (replicas_for dcf rackf g pre t s dc)) = true.
+  Proof.
+    intros Hs. unfold placement_ok. apply same_set_spec.
+    pose proof (iter_NoDup g pre t Hs s dc) as Hn. rewrite <- (replicas_spec g pre t s dc Hs).
+    repeat split; auto.
+  Qed.
+
+  Lemma ordered_model g pre t s dc : sorted_weak g -> nts_keys_ok s ->
+    let r := replicas_for dcf rackf g pre t s dc in
+    snd (rs_ordered dcf rackf g pre t r) = [] /\
+    ordered_ok g t (rs_iter dcf rackf g pre t r) (fst (rs_ordered dcf rackf g pre t r)) = true.
+  Proof.
+    intros Hs Hk. cbv zeta. rewrite (ordered_view g pre t Hs s dc Hk). cbn [fst snd].
+    split; [reflexivity|]. unfold ordered_ok. now apply list_eqb_spec.
   Qed.
 
   (* precomputation never changes an answer *)
